@@ -8,6 +8,7 @@ import (
 	"fmt"
 	"math/rand/v2"
 	"sort"
+	"strconv"
 	"strings"
 	"sync"
 	"testing"
@@ -392,6 +393,34 @@ func mutateVals(rng *rand.Rand, vs tmconsensus.ValidatorSet, how int) (tmconsens
 		}
 		vals[0].Power--
 		vals[1].Power++
+	case 6: // the decimal digits of two neighbouring powers split at another place: "12","3" vs "1","23"
+		if len(vals) < 2 {
+			return vs, false
+		}
+		i := rng.IntN(len(vals) - 1)
+		a, b := strconv.FormatUint(vals[i].Power, 10), strconv.FormatUint(vals[i+1].Power, 10)
+		digits := a + b
+		var cuts []int
+		for c := 1; c < len(digits); c++ {
+			if c == len(a) || digits[c] == '0' {
+				continue // the original split, or a leading zero in the second number
+			}
+			cuts = append(cuts, c)
+		}
+		rng.Shuffle(len(cuts), func(x, y int) { cuts[x], cuts[y] = cuts[y], cuts[x] })
+		done := false
+		for _, c := range cuts {
+			p0, e0 := strconv.ParseUint(digits[:c], 10, 64)
+			p1, e1 := strconv.ParseUint(digits[c:], 10, 64)
+			if e0 == nil && e1 == nil && p0 > 0 && p1 > 0 {
+				vals[i].Power, vals[i+1].Power = p0, p1
+				done = true
+				break
+			}
+		}
+		if !done {
+			return vs, false
+		}
 	}
 	return mkSet(vals), true
 }
@@ -624,7 +653,7 @@ var mutations = []mutation{
 
 func valsetMutations() []mutation {
 	var out []mutation
-	names := []string{"power", "key", "validator-added", "validator-removed", "validators-swapped", "power-moved-to-neighbour"}
+	names := []string{"power", "key", "validator-added", "validator-removed", "validators-swapped", "power-moved-to-neighbour", "power-digits-split-elsewhere"}
 	for how, n := range names {
 		how := how
 		out = append(out, mutation{"valset." + n, func(rng *rand.Rand, h tmconsensus.Header) (tmconsensus.Header, bool) {
